@@ -270,7 +270,9 @@ def gen_int(rng):
         return rng.randint(0, 30)
     if c < 0.8:
         return rng.randint(-50, -1)
-    return rng.choice([0, 1, 9, 10, 99, 100, 12345, 10 ** 9, 2 ** 40, -10 ** 6])
+    # incl. integers no double can hold (timestamp-like ids, 2**53 + 1)
+    return rng.choice([0, 1, 9, 10, 99, 100, 12345, 10 ** 9, 2 ** 40, -10 ** 6, 20231004153000001, 2 ** 53 + 1,
+                       10 ** 17 + 3, -(2 ** 60) - 7])
 
 
 FLOAT_ITEMS = [2.0, 1.5, 1.3, 1.1, 0.8, 0.7, 1.75, 0.0, 3.25, 10.0, 0.125, 100.5, -1.5, -0.25, 0.001, 12.0625]
